@@ -10,6 +10,7 @@
 (*   U c   marked unsatisfiable                        M c  merged             *)
 (*   B c   split-between for violated c (+ re-merge)   N   nothing violated    *)
 (*   X     satisfy() returns (loop test of solve())                            *)
+(*   R d   setDesiredPositions(d) and entry of the next solve() (re-solve)     *)
 EXTENDS Vpsc, Json, IOUtils
 Trace == ndJsonDeserialize(IOEnv.TRACE_FILE)
 VARIABLES tid, l
@@ -27,6 +28,7 @@ SetOf(flags) == {c \in 1..Len(flags) : flags[c] = 1}
 Step == /\ l <= Len(Ev)
         /\ LET e == Ev[l] IN
            /\ IF e.a = "X" THEN EndSat
+              ELSE IF e.a = "R" THEN Retarget([v \in 1..nv |-> e.des[v]])
               ELSE LET d == Derive(active) IN
                    \/ (e.a = "S" /\ Split(e.c, d))
                    \/ (e.a = "E" /\ EndSplit(d))
